@@ -64,6 +64,8 @@ type Invocation struct {
 	Ctx context.Context // cancelled when the command is killed
 	// StartStep is the scheduler step at which the command was started (fork time).
 	StartStep int
+	// StartSim is the simulated time since the run began at which the command was started.
+	StartSim time.Duration
 	// Sleep waits d on the fake clock; it returns false if the command was killed meanwhile.
 	Sleep func(d time.Duration) bool
 }
@@ -155,6 +157,7 @@ func (c *Cmd) Start() error {
 	inv := &Invocation{Cmd: c, Ctx: killCtx}
 	if s := simrt.S; s != nil {
 		inv.StartStep = s.Steps()
+		inv.StartSim = s.SimElapsed()
 	}
 	inv.Sleep = func(d time.Duration) bool {
 		if d <= 0 {
